@@ -23,6 +23,12 @@ Alpha ==
   asm |-> {".section", ".text", ".globl", "name:", "mov", "rax", ",", "[", "]", "rip", "+", "1", "-1", "HCOM", "UNTERMSTR", ".quad", ".ascii", "\"a\"", "函数", "完毕", "$暂甲格",
            "%相对.高20", "(", ")", "addi", "a0", "ILL01", "ILLFF", ".intel_syntax", "noprefix", "NL", "全局", ":", "字串", "="}]
 Langs == DOMAIN Alpha
+\* strings of length 3 are taken over a core of each alphabet (the full cube is 10^5 strings per language)
+Core ==
+ [wa  |-> {"func", "main", "{", "}", "(", ")", "x", ":=", "1", "UNTERMSTR", "\"a\"", "/*", "LCOM", "NL", ";", ",", ":", "type", "struct", "import", ".", "[", "*", "ILL01", "case", "=>"},
+  wz  |-> {"函数·主控", ":", "完毕", "(", ")", "甲", ":=", "1", "UNTERMSTR", "ZCOM", "NL", ",", "如果", "否则", "循环", "找辙", "有辙", "结构", "类型", "引入", "·", "[", "{", "ILL01", "返回"},
+  wat |-> {"(", ")", "module", "func", "$f", "param", "i32", "i32.const", "1", "export", "\"a\"", "UNTERMSTR", "WATCOM", "(;", "memory", "data", "call", "if", "end", "block", "offset=", "ILL01"},
+  asm |-> {".section", ".text", ".globl", "name:", "mov", "rax", ",", "[", "]", "+", "1", "HCOM", "UNTERMSTR", ".quad", "\"a\"", "函数", "完毕", "$暂甲格", "%相对.高20", "(", "ILL01", "NL", ":"}]
 
 \* ---- part 2: dispatch ----
 Exts == {".wa", ".WA", ".wz", ".wat", ".wa.s", ".wz.s", ".txt", ""}
@@ -46,7 +52,7 @@ VARIABLES part, lang, toks, ext, content, done
 vars == <<part, lang, toks, ext, content, done>>
 Seqs(S, n) == UNION {[1..k -> S] : k \in 1..n}
 Init == /\ done = FALSE
-        /\ \/ /\ part = "tokens" /\ lang \in Langs /\ toks \in Seqs(Alpha[lang], MaxLen) /\ ext = "" /\ content = ""
+        /\ \/ /\ part = "tokens" /\ lang \in Langs /\ toks \in Seqs(Alpha[lang], IF MaxLen > 2 THEN 2 ELSE MaxLen) \cup (IF MaxLen > 2 THEN [1..3 -> Core[lang]] ELSE {}) /\ ext = "" /\ content = ""
            \/ /\ part = "dispatch" /\ lang = "" /\ toks = <<>> /\ ext \in Exts /\ content \in Contents
 Next == /\ ~done /\ done' = TRUE /\ UNCHANGED <<part, lang, toks, ext, content>>
         /\ (Emit => IF part = "tokens" THEN PrintT(<<"T", ToJson([part |-> part, lang |-> lang, toks |-> toks])>>)
